@@ -175,6 +175,35 @@ func checkC17(c *core.Ctx) {
 			if n != 2*(7*4+7*5) {
 				c.Violate("key", i, "all:"+ks+":count", fmt.Sprintf("%s: progression of all diatonic chords sounds %d notes, expected 126", ks, n), nil)
 			}
+			// behind a count-in rest (the piece does not open with a chord), rests in between: alone and all together
+			texts := []string{"R[1] " + strings.Join(all[:7], " R[1/2] ") + " R[2] " + strings.Join(all[7:], " ") + " R[1]"}
+			for _, ch := range all {
+				texts = append(texts, "R[2] R[1] "+ch)
+			}
+			for ti, txt := range texts {
+				f, why, det := playChordText(c, ks, txt)
+				if f == nil {
+					if why != "" {
+						c.Violate("key", i, "countin:"+ks, fmt.Sprintf("%s: %q is not playable: %s", ks, txt, why), det)
+					}
+					return
+				}
+				n := 0
+				for _, e := range mergedEvents(f) {
+					if e.Kind == smfdec.NoteOn {
+						n++
+						if !scalePC[e.Key()%12] {
+							c.Violate("key", i, fmt.Sprintf("countin:%s:outside:%d", ks, min(ti, 1)), fmt.Sprintf("%s: %q (diatonic chords behind a count-in rest) sounds key %d outside the scale", ks, txt, e.Key()), nil)
+							return
+						}
+					}
+				}
+				if n == 0 {
+					c.Violate("key", i, "countin:"+ks+":silent", fmt.Sprintf("%s: %q sounds nothing", ks, txt), nil)
+					return
+				}
+			}
+			c.Nontrivial("countin:" + ks)
 		}
 	})
 }
